@@ -36,8 +36,14 @@ void do_parent_for_pp()
                  __func__, __LINE__, pc->GetOrigLine(), pc->GetOrigCol());
          log_pcf_flags(LMCB, pc->GetFlags());
          size_t level = pc->GetPpLevel();
-         Chunk  *a    = viz.at(level - 1);
-         pc->SetParent(a);
+
+         // a directive word in an unexpected place ('#include else') has no #if to belong to
+         if (  level > 0
+            && level <= viz.size())
+         {
+            Chunk *a = viz.at(level - 1);
+            pc->SetParent(a);
+         }
       }
       else if (pc->Is(CT_PP_ENDIF))
       {
@@ -45,9 +51,13 @@ void do_parent_for_pp()
                  __func__, __LINE__, pc->GetOrigLine(), pc->GetOrigCol());
          log_pcf_flags(LMCB, pc->GetFlags());
          size_t level = pc->GetPpLevel();
-         Chunk  *a    = viz.at(level);
-         pc->SetParent(a);
-         viz.pop_back();
+
+         if (level < viz.size())
+         {
+            Chunk *a = viz.at(level);
+            pc->SetParent(a);
+            viz.pop_back();
+         }
       }
       pc = pc->GetNextNcNnl();
    }
